@@ -559,9 +559,9 @@ def _tlc_cases(ctx, rnd):
             out += groups[g] if not ctx.quick else groups[g][:per_group]
         return out
 
-    one = stratified(one, lambda d: (len(d['t']), len(d['t'][0])), 110)
-    two = stratified(two, lambda d: (len(d['a']), len(d['a'][0]), d['nb'], d['order']), 22)
-    span = stratified(span, lambda d: tuple(d['ts']), 60)
+    one = stratified(one, lambda d: (len(d['t']), len(d['t'][0])), 80)
+    two = stratified(two, lambda d: (len(d['a']), len(d['a'][0]), d['nb'], d['order']), 14)
+    span = stratified(span, lambda d: tuple(d['ts']), 45)
     cases = []
     for c in one:
         n = len(c['t'])
@@ -584,7 +584,7 @@ def _tlc_cases(ctx, rnd):
 
 def _random_cases(ctx, rnd):
     cases = []
-    n_pd = ctx.pick(200, 3000)
+    n_pd = ctx.pick(160, 3000)
     for i in range(n_pd):
         dim = 1 if rnd.random() < 0.5 else 2
         big = rnd.random() < (0.04 if ctx.quick else 0.10)
@@ -593,6 +593,11 @@ def _random_cases(ctx, rnd):
         else:
             m1 = rnd.randint(12, 30) if big else rnd.randint(1, 6)
             m2 = rnd.randint(12, 30) if big else rnd.randint(1, 6)
+            if big and ctx.quick:                 # quick: the long axis on one side only
+                if rnd.random() < 0.5:
+                    m1 = rnd.randint(1, 4)
+                else:
+                    m2 = rnd.randint(1, 4)
         x1 = rnd.choice(['T', 'T', 'P', 'G1_kwargs', 'G2_kwargs'])
         x2 = rnd.choice([v for v in ['T', 'P', 'G1_kwargs', 'G2_kwargs'] if v != x1])
         cases.append({'kind': 'rpd', 'seed': rnd.randrange(1 << 30), 'dim': dim,
@@ -600,7 +605,7 @@ def _random_cases(ctx, rnd):
                       'n': rnd.randint(1, 8), 'm1': m1, 'm2': m2, 'x1': x1, 'x2': x2,
                       'norm_mode': rnd.choice(['none', 'coverage', 'positive', 'signed', 'signed']),
                       'units': rnd.choice(UNITS), 'slices': 2})
-    for i in range(ctx.pick(500, 8000)):
+    for i in range(ctx.pick(400, 8000)):
         steps = rnd.randint(1, 8)
         cases.append({'kind': 'rspan', 'seed': rnd.randrange(1 << 30),
                       'ts': [rnd.random() < 0.6 for _ in range(steps)],
@@ -653,20 +658,30 @@ def run(ctx):
     if ctx.replay_case is not None:
         cases = [ctx.replay_case['case']]
     else:
-        # (D) design model; the implementation-shaped axis=1 variant must be rejected
-        ctx.model('MC_Extrema', 'MC_Extrema' if ctx.quick else 'MC_Extrema_big')
-        for cfg, inv in (('MC_Extrema_axis1', 'StableShape'),
-                         ('MC_Extrema_axis1_values', 'StableIsArgMin')):
-            bad = ctx.model('MC_Extrema', cfg, expect_ok=False)
-            if bad.ok or bad.violated != inv:
-                raise core.MachineryError('the axis=1 arg-min variant should be rejected by %s '
-                                          '(%s):\n%s' % (inv, cfg, bad.out[-1500:]))
+        # (D) design model; the implementation-shaped axis=1 variant must be rejected.
+        # The four TLC runs (three models, case generation) are independent processes.
+        import concurrent.futures as cf
+        with cf.ThreadPoolExecutor(max_workers=4) as ex:
+            f_ok = ex.submit(ctx.model, 'MC_Extrema', 'MC_Extrema' if ctx.quick else 'MC_Extrema_big',
+                             workers=8)
+            f_bad = [(cfg, inv, ex.submit(ctx.model, 'MC_Extrema', cfg, workers=2, expect_ok=False))
+                     for cfg, inv in (('MC_Extrema_axis1', 'StableShape'),
+                                      ('MC_Extrema_axis1_values', 'StableIsArgMin'))]
+            f_cases = ex.submit(_tlc_cases, ctx, rnd)
+            f_ok.result()
+            for cfg, inv, f in f_bad:
+                bad = f.result()
+                if bad.ok or bad.violated != inv:
+                    raise core.MachineryError('the axis=1 arg-min variant should be rejected by %s '
+                                              '(%s):\n%s' % (inv, cfg, bad.out[-1500:]))
+            tlc_cases = f_cases.result()
         ctx.notes.append('design model rejects arg-min along the reaction rows (numpy axis=1): '
                          'StableShape fails whenever #reactions != #grid points and StableIsArgMin '
                          'fails because the entries are grid indices, not reaction indices')
-        cases = _tlc_cases(ctx, rnd) + _random_cases(ctx, rnd)
+        cases = tlc_cases + _random_cases(ctx, rnd)
     results = core.pmap(execute, cases)
     traces = []
+    found = []                                   # (clause, case, tags, detail)
     cov = {'scan1': 0, 'scan2': 0, 'span_reactions': 0, 'span_network': 0, 'with_units': 0,
            'slices_compared': 0, 'scans_with_phase_change': 0, 'scans_shape_discriminating': 0,
            'span_highest_before_lowest': 0, 'span_highest_after_lowest': 0}
@@ -679,8 +694,8 @@ def run(ctx):
         if _nontrivial(case, events):
             ctx.nontrivial(_signature(case))
         for clause, detail in mism:
-            ctx.violation(clause, case, tags={'kind': case['kind'], 'op': detail.get('op'),
-                                              'api': detail.get('api')}, detail=detail)
+            found.append((clause, case, {'kind': case['kind'], 'op': detail.get('op'),
+                                         'api': detail.get('api')}, detail))
         traces.append((tid, events))
         for e in events:                       # coverage statistics only (no judgement)
             if e['ev'] == 'span':
@@ -712,8 +727,16 @@ def run(ctx):
     for (tid, clause, op, api), idxs in sorted(by.items(), key=lambda kv: (kv[0][0], kv[0][1])):
         ev = results[tid][0][idxs[0]]
         det = {'event_indices': idxs[:10], 'first_event': {k: ev[k] for k in ev if k not in ('own',)}}
-        ctx.violation(clause, cases[tid], tags={'kind': cases[tid]['kind'], 'op': op, 'api': api},
-                      detail=det)
+        found.append((clause, cases[tid], {'kind': cases[tid]['kind'], 'op': op, 'api': api}, det))
+    # report round-robin over (clause, kind) so that the first replay files show every clause
+    groups = {}
+    for v in found:
+        groups.setdefault((v[0], v[2]['kind']), []).append(v)
+    order = sorted(groups, key=lambda g: (g[1] not in ('rpd', 'rspan'), g))
+    while any(groups.values()):
+        for g in order:
+            if groups[g]:
+                ctx.violation(*groups[g].pop(0))
     ctx.assume('table entries, normalisation factors and state energies are compared as 9-digit '
                'decimals: entries agreeing to 9 digits count as tied (either is an acceptable minimum); '
                'EntryMatches holds to 1e-6 relative, SpanDefinition to 1e-7 of the largest state energy')
